@@ -131,9 +131,13 @@ func distribute(t *rapid.T, lines []string, n int) []ListSpec {
 	}
 	out := make([]ListSpec, n)
 	for i := range out {
-		txt := strings.Join(texts[i], "\n")
+		eol := "\n"
+		if chance(t, "crlf-list", 5) {
+			eol = "\r\n"
+		}
+		txt := strings.Join(texts[i], eol)
 		if len(texts[i]) > 0 && !chance(t, "no-final-newline", 3) {
-			txt += "\n"
+			txt += eol
 		}
 		out[i] = ListSpec{ID: ids[i], Text: txt, File: chance(t, "file-backed", 4)}
 	}
@@ -169,10 +173,10 @@ func findColliders(prefix, suffix string, want int) []colliderPair {
 }
 
 var (
-	windowColliders = findColliders("ad", "", 6)       // 5-byte shortcut windows
-	hostColliders   = findColliders("h", ".com", 6)    // host names
-	domainColliders = findColliders("d", ".org", 4)    // $domain values
-	seqTextColliders = findColliders("x^", "^", 4)     // whole rule texts that land in the sequential table
+	windowColliders  = findColliders("ad", "", 6)    // 5-byte shortcut windows
+	hostColliders    = findColliders("h", ".com", 6) // host names
+	domainColliders  = findColliders("d", ".org", 4) // $domain values
+	seqTextColliders = findColliders("x^", "^", 4)   // whole rule texts that land in the sequential table
 )
 
 func init() {
